@@ -8,7 +8,7 @@ use crate::vx_ord::*;
 use crate::vx_hash::*;
 use crate::vx_utf8::*;
 use crate::vx_valid::*;
-broadcast use {vstd::std_specs::hash::group_hash_axioms, crate::vx_hash_ax::group_key_models, crate::vx_hash::group_string_keys, crate::vx_ord::axiom_yielded_vec};
+broadcast use {vstd::std_specs::hash::group_hash_axioms, crate::vx_hash_ax::group_key_models, crate::vx_hash::group_string_keys, crate::vx_ord::axiom_yielded_vec, crate::vx_str::group_str_eq};
 //@]
 use super::*;
 
@@ -25,7 +25,15 @@ fn __vx_select_starts<'a>(file: &'a File) -> (r: Vec<&'a Ident>)
 pub fn get_start_symbol_name(
     file: &File,
     nonterminals: &[validated::Nonterminal],
-) -> Result<String, KikiErr> {
+) -> /*@[*/(r: /*@]*/Result<String, KikiErr>/*@[*/)/*@]*/
+    //@[ C10 get_start_symbol_name: exactly one start declaration, naming a defined nonterminal
+    requires forall|a: Seq<char>| nts_have(nonterminals@, a) <==> nt_defined(file.items@, a),
+    ensures match r {
+        Ok(s) => sel_starts(file.items@).len() == 1 && s@ == sel_starts(file.items@)[0].name@ && nt_defined(file.items@, s@),
+        Err(e) => err_truthful(*file, e) && (e is NoStartSymbol || e is MultipleStartSymbols || e is UndefinedNonterminal),
+    },
+    //@]
+{
     let starts: Vec<&Ident> = /*@{ T13_select_starts*//*@- file
         .items
         .iter()
@@ -40,20 +48,51 @@ pub fn get_start_symbol_name(
     }
 
     if starts.len() > 1 {
-        let positions = starts.iter().map(|start| start.position).collect();
+        let positions/*@[*/: Vec<ByteIndex>/*@]*/ = starts.iter().map(|start/*@[*/: &&Ident/*@]*/| /*@[*/-> (o: ByteIndex) ensures o == start.position { /*@]*/start.position/*@[*/ }/*@]*/).collect();
+        //@[ proof
+        proof { assert(positions@ =~= sel_starts(file.items@).map_values(|s: Ident| s.position)); }
+        //@]
         return Err(KikiErr::MultipleStartSymbols(positions));
     }
 
+    //@[ proof
+    proof { assert(nts_have(nonterminals@, starts@[0].name@) <==> nt_defined(file.items@, starts@[0].name@)); }
+    //@]
     validate_start_symbol_name_is_defined(starts[0], nonterminals)
 }
+
+//@[ C10 ghost: some validated nonterminal is called a
+pub open spec fn nts_have(nts: Seq<validated::Nonterminal>, a: Seq<char>) -> bool {
+    exists|i: int| 0 <= i < nts.len() && nt_name(#[trigger] nts[i]) == a
+}
+//@]
 
 fn validate_start_symbol_name_is_defined(
     start_symbol: &Ident,
     nonterminals: &[validated::Nonterminal],
-) -> Result<String, KikiErr> {
+) -> /*@[*/(r: /*@]*/Result<String, KikiErr>/*@[*/)/*@]*/
+    //@[ C10 validate_start_symbol_name_is_defined: the start symbol must be one of the nonterminals (not a terminal)
+    ensures match r {
+        Ok(s) => s@ == start_symbol.name@ && nts_have(nonterminals@, start_symbol.name@),
+        Err(e) => e is UndefinedNonterminal && e->UndefinedNonterminal_0@ == start_symbol.name@ && e->UndefinedNonterminal_1 == start_symbol.position
+            && !nts_have(nonterminals@, start_symbol.name@),
+    },
+    //@]
+{
     let is_defined = nonterminals
         .iter()
-        .any(|nonterminal| nonterminal.name() == start_symbol.name);
+        .any(|nonterminal/*@[*/: &validated::Nonterminal/*@]*/| /*@[*/-> (o: bool) ensures o == (nt_name(*nonterminal) == start_symbol.name@) { /*@]*/nonterminal.name() == start_symbol.name/*@[*/ }/*@]*/);
+    //@[ proof
+    proof {
+        let nts = nonterminals@;
+        let rem = nts.as_ref();
+        assert(rem.len() == nts.len());
+        assert(forall|j: int| 0 <= j < rem.len() ==> *(#[trigger] rem[j]) == nts[j]);
+        if !is_defined {
+            assert forall|j: int| 0 <= j < nts.len() implies nt_name(#[trigger] nts[j]) != start_symbol.name@ by { assert(*rem[j] == nts[j]); }
+        }
+    }
+    //@]
 
     if !is_defined {
         return Err(KikiErr::UndefinedNonterminal(
